@@ -28,8 +28,27 @@ def redirect_case(draw, tier):
     t = draw(gen_tree.tree_case(min_n=1, max_n=max_n, regimes=["lattice", "coincident"]))
     n = len(t["parents"])
     return {"tree": t, "new_root": draw(st.integers(0, n - 1)), "sort": draw(st.booleans()),
+            "inspect_first": draw(st.integers(0, 2)) == 0,
+            # a further per-node measurement (fractions) under a name the extended SWC format also knows, or any other
+            "named_extra": draw(st.sampled_from([None, None] + gen_tree.ESWC_NAMES[:5] + ["score"])),
             # re-root the result once more (the first result, taken with sort=False, is a tree whose root is not node 0)
             "then": draw(st.one_of(st.none(), st.none(), st.tuples(st.integers(0, n - 1), st.booleans()).map(list)))}
+
+
+def _look_around(tree, ctx):
+    """Read-only questions a session asks before it restructures a tree (none of them may change what follows)."""
+    for nd in tree:
+        nd.children()
+        nd.is_tip()
+    tree.get_branches()
+    tree.get_paths()
+    tree.get_tips()
+    tree.length()
+    tree.xyz()
+    tree.xyzr()
+    if len(tree) > 1:
+        tree[len(tree) - 1].branch()
+    ctx.cls("trees-inspected-before-the-operation")
 
 
 def _undirected(parents, label):
@@ -40,7 +59,14 @@ def run_redirect(case, ctx):
     t, r, sort = case["tree"], case["new_root"], case["sort"]
     parents = t["parents"]
     n = len(parents)
-    tree = gen_tree.build_tree(t)
+    more = None
+    if case.get("named_extra"):
+        t = dict(t, named=[float(np.float32(v + 0.375)) for v in t["w"]], named_col=case["named_extra"])
+        more = {case["named_extra"]: np.array(t["named"], dtype=np.float32)}
+        ctx.cls("extra-column-under-an-eswc-name" if case["named_extra"] in gen_tree.ESWC_NAMES else "extra-column-under-another-name")
+    tree = gen_tree.build_tree(t, more=more)
+    if case.get("inspect_first"):
+        _look_around(tree, ctx)
     ctx.cls("sort" if sort else "nosort", *gen_tree.shape_classes(t))
     if r == 0:
         ctx.cls("new-root-is-old-root")
@@ -99,6 +125,9 @@ def _check_redirect(ctx, t, tree, r, sort):
         for col in ("x", "y", "z", "r", "w"):
             ctx.check(float(out.get_ndata(col)[new]) == float(np.float32(t[col][old])),
                       "redirect/attributes-kept", f"column {col} of node tagged {tg}")
+        if "named" in t:
+            ctx.check(float(out.get_ndata(t["named_col"])[new]) == t["named"][old], "redirect/attributes-kept",
+                      lambda: f"column {t['named_col']} of node tagged {tg}: {out.get_ndata(t['named_col'])[new]} != {t['named'][old]}")
     return out
 
 
@@ -140,13 +169,15 @@ def cat_case(draw, tier):
                 t[c] = [v + o for v in t[c]]
     return {"t1": t1, "t2": t2, "node1": node1, "node2": node2, "translate": translate, "far": bool(far), "near": near,
             # the first tree may hold the shared extra column in a narrower dtype (whole numbers as int32) than the second
-            "cols1": draw(st.sampled_from([["tag", "w"], ["tag"], ["tag", "w:int"]])),
+            "cols1": draw(st.sampled_from([["tag", "w"], ["tag"], ["tag", "w:int"], ["tag", "w", "eswc"]])),
+            "inspect_first": draw(st.integers(0, 2)) == 0,
+            "eswc_name": draw(st.sampled_from(gen_tree.ESWC_NAMES[:5])),
             # the junction mode given through the deprecated spelling no_move= (the opposite of translate=)
             "legacy_kw": draw(st.integers(0, 4)) == 0,
-            "cols2": draw(st.sampled_from([["tag", "w"], ["tag"], ["tag", "w", "q"]]))}
+            "cols2": draw(st.sampled_from([["tag", "w"], ["tag"], ["tag", "w", "q"], ["tag", "w", "eswc"]]))}
 
 
-def _build(t, cols):
+def _build(t, cols, eswc_name="feature_value"):
     from swcgeom.core import Tree
 
     n = len(t["parents"])
@@ -159,6 +190,8 @@ def _build(t, cols):
         kw["w"] = np.round(np.array(t["w"], dtype=np.float64)).astype(np.int32)
     if "q" in cols:
         kw["q"] = np.arange(n, dtype=np.float32) + 0.5
+    if "eswc" in cols:  # fractions stored under a name the extended SWC format also knows
+        kw[eswc_name] = np.array(t["w"], dtype=np.float32) + np.float32(0.375)
     return Tree(n, id=np.arange(n, dtype=np.int32), pid=np.array(t["parents"], dtype=np.int32),
                 type=np.array(t["type"], dtype=np.int32), x=np.array(t["x"], dtype=np.float32),
                 y=np.array(t["y"], dtype=np.float32), z=np.array(t["z"], dtype=np.float32),
@@ -171,7 +204,11 @@ def run_cat(case, ctx):
     t1, t2, a, b, translate = case["t1"], case["t2"], case["node1"], case["node2"], case["translate"]
     p1, p2 = t1["parents"], t2["parents"]
     n1, n2 = len(p1), len(p2)
-    tree1, tree2 = _build(t1, case["cols1"]), _build(t2, case["cols2"])
+    en = case.get("eswc_name", "feature_value")
+    tree1, tree2 = _build(t1, case["cols1"], en), _build(t2, case["cols2"], en)
+    if case.get("inspect_first"):
+        _look_around(tree1, ctx)
+        _look_around(tree2, ctx)
     snap1 = {k: v.copy() for k, v in tree1.ndata.items()}
     snap2 = {k: v.copy() for k, v in tree2.ndata.items()}
     j1 = np.array([t1[c][a] for c in "xyz"], dtype=np.float64)
@@ -230,6 +267,11 @@ def run_cat(case, ctx):
             ctx.check(float(out.get_ndata("w")[new]) == t1["w"][i], "cat/first-tree-attributes", "column w")
         if "w:int" in case["cols1"]:
             ctx.check(float(out.get_ndata("w")[new]) == float(round(t1["w"][i])), "cat/first-tree-attributes", "column w (whole numbers)")
+        if "eswc" in case["cols1"]:
+            ctx.check(float(out.get_ndata(en)[new]) == t1["w"][i] + 0.375, "cat/first-tree-attributes",
+                      lambda: f"column {en}: {out.get_ndata(en)[new]} expected {t1['w'][i] + 0.375}")
+    if "eswc" in case["cols1"]:
+        ctx.cls("extra-column-under-an-eswc-name")
     # second tree: parent = next node on the way to the junction
     path_to_root = [b] + models.ancestors(p2, b)  # b .. old root
     toward = {}
@@ -267,6 +309,10 @@ def run_cat(case, ctx):
             want = t2["w"][i] if "w" in case["cols2"] else 0.0
             ctx.check(float(out.get_ndata("w")[new]) == want, "cat/second-tree-attributes",
                       lambda: f"column w: {out.get_ndata('w')[new]} expected {want}")
+        if "eswc" in case["cols1"]:
+            want = t2["w"][i] + 0.375 if "eswc" in case["cols2"] else 0.0
+            ctx.check(float(out.get_ndata(en)[new]) == want, "cat/second-tree-attributes",
+                      lambda: f"column {en}: {out.get_ndata(en)[new]} expected {want}")
     if merged and translate:
         new = new_of_tag[t1["tag"][a]]
         for k, col in enumerate("xyz"):
@@ -314,12 +360,14 @@ def run_path(case, ctx):
 SUBCHECKS = [
     Sub("redirect", redirect_case, run_redirect, quick=1500, thorough=20000, shards_quick=4,
         required={"sort": 200, "nosort": 200, "permuted": 200, "new-root-is-old-root": 10,
-                  "re-rooted-again-from-a-root-that-is-not-node-0": 150}),
+                  "re-rooted-again-from-a-root-that-is-not-node-0": 150, "trees-inspected-before-the-operation": 200,
+                  "extra-column-under-an-eswc-name": 200}),
     Sub("cat", cat_case, run_cat, quick=1200, thorough=16000, shards_quick=4,
         required={"merged": 100, "linked": 100, "translate": 100, "no-translate": 100,
                   "node2-not-root": 100, "cols2:tag": 50, "cols2:tag+w+q": 50, "far-from-the-origin": 200,
                   "junctions-a-fraction-of-a-unit-apart": 60, "near-miss-far-from-the-origin": 20,
-                  "junction-mode-through-the-deprecated-keyword": 100, "shared-column-narrower-in-the-first-tree": 100}),
+                  "junction-mode-through-the-deprecated-keyword": 100, "shared-column-narrower-in-the-first-tree": 100,
+                  "trees-inspected-before-the-operation": 200, "extra-column-under-an-eswc-name": 100}),
     Sub("path", path_case, run_path, quick=600, thorough=3000, shards_quick=2,
         required={"path-len>=3": 50, "path-types-not-a-palindrome": 50}),
 ]
